@@ -204,4 +204,65 @@ theorem leg_agree_of_same_kind (cfg : Cfg) (hg : legBaseB cfg = true) (l : Leaf)
       exact hg
     exact leg_agree cfg this l h hi r
 
+/-! ### legs that are never hinted reach the residual
+
+    Phrase, vector, geo-distance and nested-slice legs are not body-field comparison leaves; the
+    planner never hints them and `cloneGroupHeader` carries them into the residual.  In the model such a
+    leg is a leaf without a hint (its verdict is some predicate of the record that both routes
+    compute with the same code).  What the planner owes them is only this: -/
+
+theorem firstIndexable_keeps (cfg : Cfg) : ∀ (ls : List Leaf) (h : Hint) (rest : List Leaf),
+    firstIndexable cfg ls = some (h, rest) → ∀ l ∈ ls, indexableHint cfg l = none → l ∈ rest := by
+  intro ls
+  induction ls with
+  | nil => intro h rest he; simp [firstIndexable] at he
+  | cons x xs ih =>
+    intro h rest he l hl hn
+    simp only [firstIndexable] at he
+    cases hx : indexableHint cfg x with
+    | some h0 =>
+      simp only [hx, Option.some.injEq, Prod.mk.injEq] at he
+      obtain ⟨_, rfl⟩ := he
+      rcases List.mem_cons.mp hl with rfl | hl'
+      · rw [hx] at hn; cases hn
+      · exact hl'
+    | none =>
+      simp only [hx] at he
+      cases hr : firstIndexable cfg xs with
+      | none => simp [hr] at he
+      | some p =>
+        obtain ⟨h1, rest1⟩ := p
+        simp only [hr, Option.some.injEq, Prod.mk.injEq] at he
+        obtain ⟨_, rfl⟩ := he
+        rcases List.mem_cons.mp hl with rfl | hl'
+        · exact List.mem_cons_self
+        · exact List.mem_cons_of_mem _ (ih h1 rest1 hr l hl' hn)
+
+/-- **The residual carries every leg that has no hint** (in particular the opaque kinds), unchanged. -/
+theorem residual_carries_opaque (cfg : Cfg) (g : Group) (hints : List Hint) (res : Group)
+    (hp : planFilter cfg g = .and hints res) : ∀ l ∈ g.leaves, indexableHint cfg l = none → l ∈ res.leaves := by
+  intro l hl hn
+  unfold planFilter at hp
+  split at hp
+  · cases hp
+  · split at hp
+    · -- an OR group never yields an AND plan
+      unfold planOr at hp
+      split at hp
+      · cases hp
+      · split at hp
+        · split at hp <;> cases hp
+        · cases hp
+    · unfold planAnd at hp
+      split at hp
+      · rename_i h rest hf
+        simp only [Plan.and.injEq] at hp
+        obtain ⟨_, rfl⟩ := hp
+        exact firstIndexable_keeps cfg g.leaves h rest hf l hl hn
+      · split at hp
+        · simp only [Plan.and.injEq] at hp
+          obtain ⟨_, rfl⟩ := hp
+          exact hl
+        · cases hp
+
 end Hv.Query
